@@ -72,7 +72,9 @@ bool summary<T>::load(std::istream &in, const problem &p)
     tmp_summary.best.score.accuracy = tmp_accuracy;
   }
 
-  int ms;
+  // Same type used by `save` (`elapsed.count()`): an `int` cannot hold the
+  // duration of a run longer than 2^31 ms.
+  std::chrono::milliseconds::rep ms;
   if (!(in >> ms))
     return false;
   tmp_summary.elapsed = std::chrono::milliseconds(ms);
